@@ -23,7 +23,7 @@ RS == IF R.sel THEN Sel(R.ref, R.ri) ELSE Fg(R.ref)
 PS == IF R.sel THEN SelSet(R.pred, {R.pis[i] : i \in 1..Len(R.pis)}) ELSE Fg(R.pred)
 
 \* a bag as a sequence of <<squared distance, multiplicity>> (one JSON line per trace)
-BagSeq(f) == SetToSeq({<<d, Cardinality({v \in DOMAIN f : f[v] = d})>> : d \in {f[v] : v \in DOMAIN f}})
+BagSeq(f) == SeqOfSet({<<d, Cardinality({v \in DOMAIN f : f[v] = d})>> : d \in {f[v] : v \in DOMAIN f}})
 
 Init == tid \in 1..Len(T) /\ l = 0
 \* for ASSD the step also prints the two bags of squared nearest-border distances; the harness
